@@ -18,6 +18,57 @@ type guard struct {
 	typeOf map[string]string // tag -> type name
 	depth  int
 	env    func(ssa.Value) (int64, bool) // constants bound in the calling context under analysis (closure free variables)
+	ctx    []callCtx                     // calls whose callee's returns are being classified (innermost last)
+	assume map[ssa.Value]string          // object root -> tag known from the dynamic dispatch under analysis (the receiver of an invoke that selected the method being analysed)
+}
+
+// resolveArg: a parameter of the function whose returns are being classified (callTagOf) stands for the argument of the
+// call under analysis – so a constant operator handed down through a forwarding method is still known.
+func (g *guard) resolveArg(v ssa.Value) ssa.Value {
+	for k := len(g.ctx) - 1; k >= 0; k-- {
+		p, ok := strip(v).(*ssa.Parameter)
+		if !ok || p.Parent() != g.ctx[k].callee {
+			break
+		}
+		idx := -1
+		for i, q := range p.Parent().Params {
+			if q == p {
+				idx = i
+			}
+		}
+		cc := g.ctx[k].call.Common()
+		if cc.IsInvoke() {
+			idx--
+		}
+		if idx < 0 || idx >= len(cc.Args) {
+			break
+		}
+		v = cc.Args[idx]
+	}
+	return v
+}
+
+// objRoot: the object an interface value denotes, through wrappers and assertions to other interface types.
+func objRoot(v ssa.Value) ssa.Value {
+	for i := 0; i < 6; i++ {
+		v = strip(v)
+		switch x := v.(type) {
+		case *ssa.Extract:
+			if ta, ok := x.Tuple.(*ssa.TypeAssert); ok && x.Index == 0 {
+				if _, isIface := ta.AssertedType.Underlying().(*types.Interface); isIface {
+					v = ta.X
+					continue
+				}
+			}
+		case *ssa.TypeAssert:
+			if _, isIface := x.AssertedType.Underlying().(*types.Interface); isIface && !x.CommaOk {
+				v = x.X
+				continue
+			}
+		}
+		return v
+	}
+	return v
 }
 
 // constIntEnv: a constant, or a value the calling context under analysis binds to one.
@@ -70,6 +121,9 @@ func (g *guard) dynTag(v ssa.Value, b *ssa.BasicBlock, depth int) string {
 	}
 	v0 := v
 	v = strip(v)
+	if t, ok := g.assume[objRoot(v)]; ok {
+		return t
+	}
 	// static knowledge: interface made from a concrete pointer type
 	if mi, ok := v0.(*ssa.MakeInterface); ok {
 		if nt := namedOf(mi.X.Type()); nt != nil {
@@ -346,13 +400,28 @@ func (g *guard) paramTag(p *ssa.Parameter, depth int) string {
 				blocks = chosen
 			}
 		}
+		// dynamic dispatch: this call reaches fn only when the receiver's dynamic type is fn's receiver type
+		saved := g.assume
+		if c.Common().IsInvoke() && fn.Signature.Recv() != nil {
+			if nt := namedOf(fn.Signature.Recv().Type()); nt != nil {
+				if rt, ok := g.tagOf[nt.Obj().Name()]; ok {
+					g.assume = map[ssa.Value]string{}
+					for k, v := range saved {
+						g.assume[k] = v
+					}
+					g.assume[objRoot(c.Common().Value)] = rt
+				}
+			}
+		}
 		for _, blk := range blocks {
 			t := g.dynTag(args[ai], blk, depth+1)
 			if t == "" || (tag != "" && t != tag) {
+				g.assume = saved
 				return ""
 			}
 			tag = t
 		}
+		g.assume = saved
 	}
 	return tag
 }
@@ -360,9 +429,15 @@ func (g *guard) paramTag(p *ssa.Parameter, depth int) string {
 // callTag: the tag of a call's result when every return consistent with the call's constant arguments carries it.
 func (g *guard) callTag(c *ssa.Call, depth int) string {
 	f := c.Call.StaticCallee()
-	if f == nil && !c.Call.IsInvoke() {
-		// a call through a function value chosen among known functions: all of them must agree
-		fs := g.e.closuresOf(c.Call.Value, nil, 0)
+	if f == nil {
+		// a call through a function value chosen among known functions, or a dynamically dispatched method: all of the
+		// possible callees must agree
+		var fs []*ssa.Function
+		if c.Call.IsInvoke() {
+			fs = g.e.callees(c)
+		} else {
+			fs = g.e.closuresOf(c.Call.Value, nil, 0)
+		}
 		tag := ""
 		for _, h := range fs {
 			t := g.callTagOf(c, h, depth)
@@ -397,8 +472,12 @@ func (g *guard) callTagOf(c *ssa.Call, f *ssa.Function, depth int) string {
 				continue
 			}
 			for i, q := range f.Params {
-				if q == p && i < len(c.Call.Args) {
-					if actual, isC := constString(c.Call.Args[i]); isC {
+				ai := i
+				if c.Call.IsInvoke() {
+					ai = i - 1 // the receiver is not among the arguments of an invoke
+				}
+				if q == p && ai >= 0 && ai < len(c.Call.Args) {
+					if actual, isC := constString(g.resolveArg(c.Call.Args[ai])); isC {
 						if (actual == k) != cd.Val {
 							excluded = true
 						}
@@ -410,7 +489,9 @@ func (g *guard) callTagOf(c *ssa.Call, f *ssa.Function, depth int) string {
 			continue
 		}
 		n++
+		g.ctx = append(g.ctx, callCtx{c, f})
 		t := g.dynTag(retVals(r)[0], r.Block(), depth+1)
+		g.ctx = g.ctx[:len(g.ctx)-1]
 		if t == "" || (tag != "" && t != tag) {
 			return ""
 		}
@@ -865,6 +946,9 @@ func isObjectIface(t types.Type) bool {
 
 // localTag: tag of v known from the branch conditions at b only (no call-site reasoning).
 func (g *guard) localTag(v ssa.Value, b *ssa.BasicBlock) string {
+	if t, ok := g.assume[objRoot(v)]; ok {
+		return t
+	}
 	for _, cd := range condsAt(b) {
 		cd = normCond(cd)
 		switch x := cd.V.(type) {
